@@ -194,11 +194,12 @@ theorem putElement_inv {d : Deque} {det as : List Nat} {a : Nat} (h : Inv d (a :
     · simp only [hld, hba, if_false]
       exact h.free b (by grind)
 
-theorem autoReset_inv {d : Deque} (htm : d.template = {}) (he : d.elements ≠ []) :
-    ∃ d', d.autoReset = some d' ∧ Inv d' [] [] ∧ d'.length = 0 ∧ d'.elements ≠ [] := by
-  obtain ⟨d', hr, hh, ht, hl, htm', hst, hsz⟩ := autoReset_spec he
-  exact ⟨d', hr, ⟨htm' ▸ htm, by simp [hst], by simp [hst], by simp [hst, hsz], by simp [hh], by simp [ht],
-    by simp, by simp [hst]⟩, hl, fun hn => by simp [hn] at hsz⟩
+theorem autoReset_inv {d : Deque} (htm : d.template = {}) :
+    Inv d.autoReset [] [] ∧ d.autoReset.length = 0 := by
+  obtain ⟨hh, ht, hl, htm', hst, hsz⟩ := autoReset_spec d
+  refine ⟨⟨htm' ▸ htm, by simp [hst], by simp [hst], ?_, by simp [hh], by simp [ht], by simp, by simp [hst]⟩, hl⟩
+  simp only [hst, hsz, List.append_nil, List.length_nil]
+  omega
 
 /-! ### doPushBack / doPushFront -/
 
